@@ -32,6 +32,11 @@ Sim *make_l2mgr_sim();
 Sim *make_stream_sim();
 Sim *make_streamhuge_sim();
 Sim *make_gcmhuge_sim();
+Sim *make_cbchuge_sim();
+const uint8_t *huge_in_window();
+uint8_t *huge_out_window();
+uint8_t *huge_out_pattern();
+size_t huge_period();
 Sim *make_oneshot_sim();
 Sim *make_dispatch_sim();
 Sim *make_fipsgate_sim();
